@@ -213,7 +213,7 @@ Qed.
    repaired code their caches are consistent, as the theorem says *)
 Definition ops_plain_demo : list op :=
   [OCenter 0 false; OSlice 0 (KSlice (Some 1%Z) None None) true; OSlice 0 (KInt (-1)%Z) true; OSlice 0 (KList [2%Z; 2%Z; 0%Z]) true;
-   OSuperpose 1 0 0%Z; OCenter 1 false; OAtomSlice 0 [0%Z; 2%Z] true; OJoin 1 [1] true; OStack 1 1; OCenter 4 true].
+   OSuperpose 1 0 0%Z; OCenter 1 false; OAtomSlice 0 [0%Z; 2%Z] true; OJoin 1 [1] true true; OStack 1 1; OCenter 4 true].
 Lemma plain_demo :
   forallb plain_op ops_plain_demo = true /\ guarded top_guard v_fix (init_world specs1) ops_plain_demo = true /\
   snd (run v_fix (init_world specs1) ops_plain_demo) = [ROk; ROk; ROk; ROk; ROk; ROk; ROk; ROk; ROk; ROk] /\
